@@ -521,7 +521,7 @@ func c01RawHTTP(c *Ctx) {
 	c.Ev.Sample(map[string]any{"part": "raw-http", "requests": len(reqs), "listeners": []string{"fasthttp", "http", "https (ALPN http/1.1)"}})
 }
 
-// c01ListenersLogged: valid queries whose names are almost entirely non-printable octets (four
+// c01ListenersLogged: valid queries whose names are almost entirely non-printable octets, or consist of up to 127 one-octet labels, (four
 // labels of 63+63+63+up to 61 octets; the text form, \DDD per octet, is four times as long),
 // against a proxy that turns every name into text: query logging on and a regexp rule first.
 // Buffers go straight back to the pool (no quarantine), as in production.
@@ -561,6 +561,29 @@ func c01ListenersLogged(c *Ctx) {
 				c.Ev.Eval(1)
 				b.Exchange(listener, wire, xOpts{Timeout: 5 * time.Second})
 				c.Ev.Distinct("logged-listener", listener, total/50)
+			}
+			// names with as many labels as the wire format allows: 127 labels of one octet (255 octets
+			// with the root), 126, 125 and 100; also with the bed's own suffix at the end (the domain
+			// sets are walked label by label)
+			for _, nl := range []int{127, 126, 125, 100, 124} {
+				if !b.Proxy.Alive() {
+					break
+				}
+				wire := []byte{0, byte(nl), 1, 0, 0, 1, 0, 0, 0, 0, 0, 0}
+				left := nl
+				tail := []byte{0}
+				if nl == 124 || nl == 100 {
+					tail = []byte{4, 'p', 'i', 'p', 'e', 4, 't', 'e', 's', 't', 0}
+					left = nl - 5 // 124: 119 one-octet labels + 2 labels of four = 249 + 1 <= 255
+				}
+				for k := 0; k < left; k++ {
+					wire = append(wire, 1, byte('a'+k%26))
+				}
+				wire = append(wire, tail...)
+				wire = append(wire, 0, 1, 0, 1)
+				c.Ev.Eval(1)
+				b.Exchange(listener, wire, xOpts{Timeout: 5 * time.Second})
+				c.Ev.Distinct("many-labels", listener, nl)
 			}
 		}(listener)
 	}
